@@ -68,12 +68,15 @@ fn networks(tier: &str) -> Vec<Inst> {
         push(&[0, 2, 3], &[0, 1], &[5], &[0, 1, 4], 0, 1..=4);
         // two-segment trips (two nodes per direction-0 trip, back to back)
         push(&[0, 1, 2], &[0, 1], &[0, 2, 5], &[0, 4], 1, 1..=3);
+        // a five-minute slot reachable only by a quick dead-head detour while staying put needs 900 s
+        push(&[4], &[0], &[4], &[8], 0, 1..=4);
     } else {
         push(&[0, 1, 3], &[0, 1], &[0, 1, 2, 3], &[0, 1, 4], 0, 1..=2);
         // three trips (three-node dummy tours, non-transitive chains) on a reduced configuration grid
         push(&[0, 3], &[0, 1], &[0, 2, 3], &[0, 4], 0, 3..=3);
         push(&[0, 2], &[0, 1], &[5], &[0, 4], 0, 1..=3);
         push(&[0, 1], &[0, 1], &[0, 5], &[0, 4], 1, 1..=2);
+        push(&[4], &[0], &[4], &[8], 0, 1..=3);
     }
     out
 }
